@@ -13,7 +13,7 @@ use arrow_schema::DataType;
 use serde_json::{json, Map, Value};
 use std::collections::BTreeSet;
 
-fn decode_text(bytes: &[u8]) -> Reply {
+pub fn decode_text(bytes: &[u8]) -> Reply {
     // error / plain replies: "<code> <message>\n<lines>"; streaming replies: the same JSON frames
     let text = String::from_utf8_lossy(bytes);
     let first = text.lines().next().unwrap_or("");
@@ -52,7 +52,7 @@ fn cell(arr: &dyn Array, i: usize) -> Result<Value, String> {
     })
 }
 
-fn decode_arrow(bytes: &[u8]) -> Reply {
+pub fn decode_arrow(bytes: &[u8]) -> Reply {
     if bytes.first() == Some(&b'{') {
         return decode_json(bytes);
     }
@@ -101,7 +101,7 @@ fn values_equal(a: &Value, b: &Value) -> bool {
     }
 }
 
-fn compare(a: &Reply, an: &str, b: &Reply, bn: &str) -> Vec<String> {
+pub fn compare(a: &Reply, an: &str, b: &Reply, bn: &str) -> Vec<String> {
     let mut d = Vec::new();
     if let Some(f) = &a.failure {
         d.push(format!("{an} undecodable: {f}"));
@@ -146,6 +146,25 @@ fn compare(a: &Reply, an: &str, b: &Reply, bn: &str) -> Vec<String> {
         }
     }
     d
+}
+
+pub fn class_of(diffs: &[String]) -> String {
+    let d = &diffs[0];
+    if diffs.iter().all(|x| x.starts_with("UNIT")) {
+        "arrow timestamp unit".to_string()
+    } else if d.contains("undecodable") || d.contains("no bytes") {
+        "an encoding is not decodable / not produced".to_string()
+    } else if d.starts_with("status") {
+        "status code differs between encodings".to_string()
+    } else if d.starts_with("column names") {
+        "column names differ".to_string()
+    } else if d.starts_with("row count") {
+        "row count differs".to_string()
+    } else if d.contains("announces") {
+        "announced row count differs from emitted rows".to_string()
+    } else {
+        format!("cell value differs ({})", if d.contains("arrow") { "json vs arrow" } else { "json vs text" })
+    }
 }
 
 fn setup_ops() -> Vec<Op> {
@@ -305,24 +324,7 @@ pub fn check(tier: &str) -> i32 {
                         nontrivial += 1;
                     }
                     if !diffs.is_empty() {
-                        let class = {
-                            let d = &diffs[0];
-                            if diffs.iter().all(|x| x.starts_with("UNIT")) {
-                                "arrow timestamp unit".to_string()
-                            } else if d.contains("undecodable") || d.contains("no bytes") {
-                                "an encoding is not decodable / not produced".to_string()
-                            } else if d.starts_with("status") {
-                                "status code differs between encodings".to_string()
-                            } else if d.starts_with("column names") {
-                                "column names differ".to_string()
-                            } else if d.starts_with("row count") {
-                                "row count differs".to_string()
-                            } else if d.contains("announces") {
-                                "announced row count differs from emitted rows".to_string()
-                            } else {
-                                format!("cell value differs ({})", if d.contains("arrow") { "json vs arrow" } else { "json vs text" })
-                            }
-                        };
+                        let class = class_of(diffs);
                         failing.push(Failing {
                             key: format!("batch={:?}|{}|{q}", work[wi].0, work[wi].1),
                             digest: crate::golden::digest(&diffs.join(";")),
@@ -334,6 +336,19 @@ pub fn check(tier: &str) -> i32 {
             }
         }
     }
+    // component level: the writers fed directly with every small batch sequence
+    let (wcases, wnontrivial, woutcomes, wsizes) = match crate::c20w::run(&scratch, tier) {
+        Ok((f, c, n, o, s)) => {
+            failing.extend(f);
+            (c, n, o, s)
+        }
+        Err(e) => {
+            eprintln!("MACHINERY: {e}");
+            return 2;
+        }
+    };
+    evals += wcases * 3;
+    nontrivial += wnontrivial;
     let verdict = crate::golden::judge("C20", tier, &failing);
     let nv = crate::golden::report("C20", &verdict, &|_| "the three encodings of one answer do not decode to the same table (exact cases in known/C20.*.json)".to_string(), 6);
     write_evidence(&Evidence {
@@ -347,6 +362,8 @@ pub fn check(tier: &str) -> i32 {
             "rule": format!("{} commands (selections with every RETURN shape, WHERE / FOR, REPLAY, ORDER BY + LIMIT/OFFSET grid points, aggregate tables with every metric kind, BY and PER, empty results, error replies of four kinds, PING, FLUSH) on rows holding nulls, integers at the 64-bit limits, u64 above i64::MAX, -0.0 / 1e308 / 1e-7 / integral floats, empty, numeric-looking, keyword-looking and non-ASCII strings x layouts {{memory, flushed}} x response batch sizes {:?}; each answered through JsonRenderer, ArrowRenderer and UnixRenderer by the real response writer, decoded independently (serde_json, arrow_ipc StreamReader, line parser) and compared: status, column names, row count, every cell (numbers numerically, nulls as nulls, strings byte-identical), announced row count; distinct_nontrivial = (state, command) pairs with at least one row", qs.len(), batch_sizes),
             "samples": qs.iter().step_by(4).take(8).collect::<Vec<_>>(),
             "failing_cases": failing.len(),
+            "writer_level": {"cases": wcases, "streaming_batch_sizes": wsizes, "distinct_row_counts": woutcomes, "cases_where_limit_offset_or_dedup_cut_the_input": wnontrivial,
+                "rule": "QueryResponseWriter and ShowResponseWriter (materialised frames 0/1, watermark filtering on/off) fed directly with every composition of n<=5 (thorough 7) rows into batches (plus empty batches) x every duplicate-id pattern up to renaming x LIMIT in {none, 0..n+1} x OFFSET in {none, 0, 1, 2, n}, rendered by the JSON, Arrow and text renderers and compared as above"},
             "exhaustive": true,
         }),
         assumptions: vec!["an Arrow timestamp column is compared as the instant it denotes (ms -> s)".into(), "hand-built column batches (cells whose runtime type differs from the declared one, non-finite floats) are not fed to the writer: only results the engine itself produces".into()],
